@@ -14,7 +14,20 @@
 static int C_RAW, C_IN, C_V4, C_V6, C_BYTE, C_ACC, C_REJ, C_ANY, C_IMPLACC, C_PART;
 
 typedef eav_result_t *(*email_fn)(const char *, size_t, bool);
+#ifdef HAVE_IDNKIT
+/* the idnkit build's is_6531_email takes a resolver context: mode 6531 goes through a long-lived eav_t there (the record is copied out) */
+static eav_t OBJ6531[2]; static int obj6531_ready;
+static eav_result_t *via_object_6531(const char *e, size_t l, bool t) {
+    if (!obj6531_ready) { for (int k = 0; k < 2; k++) { memset(&OBJ6531[k], 0, sizeof OBJ6531[k]); eav_init(&OBJ6531[k]); OBJ6531[k].rfc = EAV_RFC_6531; OBJ6531[k].tld_check = k; OBJ6531[k].allow_tld = 0x7fe; if (eav_setup(&OBJ6531[k])) exit(2); } obj6531_ready = 1; }
+    eav_is_email(&OBJ6531[t ? 1 : 0], e, l);
+    eav_result_t *r = calloc(1, sizeof *r); eav_result_t *s = OBJ6531[t ? 1 : 0].result;
+    if (s) { r->rc = s->rc; r->is_ipv4 = s->is_ipv4; r->is_ipv6 = s->is_ipv6; r->is_domain = s->is_domain; r->idn_rc = s->idn_rc; } else r->rc = -EEAV_EMAIL_EMPTY;
+    return r;
+}
+static email_fn EMAIL[4] = { is_822_email, is_5321_email, is_5322_email, via_object_6531 };
+#else
 static email_fn EMAIL[4] = { is_822_email, is_5321_email, is_5322_email, is_6531_email };
+#endif
 static const char *MN[4] = { "822", "5321", "5322", "6531" };
 static const char *FAM[] = { "none", "host", "ipv4", "ipv6" };
 
@@ -249,6 +262,7 @@ int main(int argc, char **argv) {
     mc_parallel("v6: groups before/after '::' 0..8, 27 group spellings (widths 0..5, zero-led, over-wide, non-hex) at every index, 6 tails, 8 tags, stray colons", 9 * 9 * 2, v6_shard, NULL);
     mc_parallel("byte: every byte before/after each bracket, at every content position; 1-2 tokens after ']'", 5, byte_shard, NULL);
     mc_parallel("maxlit: maximal-length valid literals + junk inside / after the brackets, every proper prefix", corpus_shards(CP_MAXLIT), l5_shard, NULL);
+    for (int i = 1; i < argc; i++) if (!strcmp(argv[i], "--structured-only")) return mc_finish();    /* the steps on the other back ends */
     int nraw = mc_thorough ? 8 : 6, nin = mc_thorough ? 9 : 7;
     memset(&ERAW, 0, sizeof ERAW); ERAW.A = SIGRAW; ERAW.nA = 10; ERAW.N = nraw; ERAW.k = 3; ERAW.fn = raw_cb;
     memset(&EIN, 0, sizeof EIN); EIN.A = SIGIN; EIN.nA = 9; EIN.N = nin; EIN.k = 3; EIN.fn = in_cb;
